@@ -33,7 +33,7 @@ Lemma Nlen_firstn_le {X} n (l : list X) : (n <= length l)%nat -> Nlen (firstn n 
 Proof. intros H. unfold Nlen. rewrite firstn_length. lia. Qed.
 
 (* ---------- has_at ---------- *)
-Lemma has_at_intro {X : Type} (A x B : list N) off : Nlen A = off -> has_at (A ++ x ++ B) off x.
+Lemma has_at_intro (A x B : list N) off : Nlen A = off -> has_at (A ++ x ++ B) off x.
 Proof. intros <-. apply has_at_mid. Qed.
 Lemma has_at_whole x : has_at x 0 x.
 Proof. exists [], []. split; [now rewrite app_nil_r|reflexivity]. Qed.
